@@ -7,8 +7,12 @@
 // turbofish dropped by X3.)  Spurious I/O errors are not modelled: they take the
 // same `?` paths as end of data.
 pub struct VSource {
-    pub rem: Ghost<Seq<u8>>,
+    pub whole: Ghost<Seq<u8>>,
+    pub pos: Ghost<int>,
 }
+
+#[verifier::external_type_specification]
+pub struct ExSeekFrom(std::io::SeekFrom);
 
 pub open spec fn u16_le(s: Seq<u8>) -> u16 { (s[0] as u16) | ((s[1] as u16) << 8u16) }
 pub open spec fn u32_le(s: Seq<u8>) -> u32 {
@@ -19,11 +23,37 @@ pub open spec fn u64_le(s: Seq<u8>) -> u64 {
 }
 
 impl VSource {
-    pub closed spec fn left(&self) -> Seq<u8> { self.rem@ }
+    // the whole stream, and what is left from the current position (seeking past the end is
+    // allowed, as with std::io::Cursor: nothing is left then)
+    pub closed spec fn all(&self) -> Seq<u8> { self.whole@ }
+    pub closed spec fn left(&self) -> Seq<u8> {
+        if 0 <= self.pos@ <= self.whole@.len() { self.whole@.skip(self.pos@) } else { Seq::<u8>::empty() }
+    }
+
+    // `reader.seek(SeekFrom::Start(n))`: position n from the start (other variants are not used
+    // by the code under contract and are left unspecified)
+    #[verifier::external_body]
+    pub fn seek(&mut self, to: std::io::SeekFrom) -> (r: std::io::Result<u64>)
+        ensures
+            final(self).all() == old(self).all(),
+            r is Ok ==> (to matches std::io::SeekFrom::Start(n) ==> final(self).left() ==
+                (if n as int <= old(self).all().len() { old(self).all().skip(n as int) } else { Seq::<u8>::empty() })),
+    { unimplemented!() }
+
+    // read_exact into a fixed 16-byte array (CLSID / FMTID fields)
+    #[verifier::external_body]
+    pub fn read_exact16(&mut self, buf: &mut [u8; 16]) -> (r: std::io::Result<()>)
+        ensures
+            final(self).all() == old(self).all(),
+            old(self).left().len() >= 16 ==> r is Ok,
+            r is Ok ==> old(self).left().len() >= 16 && final(buf)@ == old(self).left().take(16)
+                && final(self).left() == old(self).left().skip(16),
+    { unimplemented!() }
 
     #[verifier::external_body]
     pub fn read_u8(&mut self) -> (r: std::io::Result<u8>)
         ensures
+            final(self).all() == old(self).all(),
             old(self).left().len() >= 1 ==> r is Ok,
             r is Ok ==> old(self).left().len() >= 1 && r->Ok_0 == old(self).left()[0] && final(self).left() == old(self).left().skip(1),
     { unimplemented!() }
@@ -31,6 +61,7 @@ impl VSource {
     #[verifier::external_body]
     pub fn read_i8(&mut self) -> (r: std::io::Result<i8>)
         ensures
+            final(self).all() == old(self).all(),
             old(self).left().len() >= 1 ==> r is Ok,
             r is Ok ==> old(self).left().len() >= 1 && r->Ok_0 == old(self).left()[0] as i8 && final(self).left() == old(self).left().skip(1),
     { unimplemented!() }
@@ -38,6 +69,7 @@ impl VSource {
     #[verifier::external_body]
     pub fn read_u16(&mut self) -> (r: std::io::Result<u16>)
         ensures
+            final(self).all() == old(self).all(),
             old(self).left().len() >= 2 ==> r is Ok,
             r is Ok ==> old(self).left().len() >= 2 && r->Ok_0 == u16_le(old(self).left()) && final(self).left() == old(self).left().skip(2),
     { unimplemented!() }
@@ -45,6 +77,7 @@ impl VSource {
     #[verifier::external_body]
     pub fn read_i16(&mut self) -> (r: std::io::Result<i16>)
         ensures
+            final(self).all() == old(self).all(),
             old(self).left().len() >= 2 ==> r is Ok,
             r is Ok ==> old(self).left().len() >= 2 && r->Ok_0 == u16_le(old(self).left()) as i16 && final(self).left() == old(self).left().skip(2),
     { unimplemented!() }
@@ -52,6 +85,7 @@ impl VSource {
     #[verifier::external_body]
     pub fn read_u32(&mut self) -> (r: std::io::Result<u32>)
         ensures
+            final(self).all() == old(self).all(),
             old(self).left().len() >= 4 ==> r is Ok,
             r is Ok ==> old(self).left().len() >= 4 && r->Ok_0 == u32_le(old(self).left()) && final(self).left() == old(self).left().skip(4),
     { unimplemented!() }
@@ -59,6 +93,7 @@ impl VSource {
     #[verifier::external_body]
     pub fn read_i32(&mut self) -> (r: std::io::Result<i32>)
         ensures
+            final(self).all() == old(self).all(),
             old(self).left().len() >= 4 ==> r is Ok,
             r is Ok ==> old(self).left().len() >= 4 && r->Ok_0 == u32_le(old(self).left()) as i32 && final(self).left() == old(self).left().skip(4),
     { unimplemented!() }
@@ -66,6 +101,7 @@ impl VSource {
     #[verifier::external_body]
     pub fn read_u64(&mut self) -> (r: std::io::Result<u64>)
         ensures
+            final(self).all() == old(self).all(),
             old(self).left().len() >= 8 ==> r is Ok,
             r is Ok ==> old(self).left().len() >= 8 && r->Ok_0 == u64_le(old(self).left()) && final(self).left() == old(self).left().skip(8),
     { unimplemented!() }
@@ -73,6 +109,7 @@ impl VSource {
     #[verifier::external_body]
     pub fn read_exact(&mut self, buf: &mut Vec<u8>) -> (r: std::io::Result<()>)
         ensures
+            final(self).all() == old(self).all(),
             final(buf)@.len() == old(buf)@.len(),
             old(self).left().len() >= old(buf)@.len() ==> r is Ok,
             r is Ok ==> old(self).left().len() >= old(buf)@.len() && final(buf)@ == old(self).left().take(old(buf)@.len() as int)
